@@ -22,6 +22,9 @@ def check(chk):
     r95(chk, m)
     from . import shared
     shared.paux_rules(chk, m, 'R9.6')
+    shared.cache_rules(chk, m, 'R9.7')       # the nested macros of an environment (its numbered row ends) come from a per-class memo
+    from . import c08
+    c08.r83(chk, m, rule_id='R9.8')           # which object is the current label when a \label is read
     chk.decline('identity of the resolved object for all documents and orders (runtime); decided is the protocol of the '
                 'label/reference tables')
 
